@@ -143,6 +143,7 @@ class C12(Prop):
             spec = rng.choice([('v', 'k'), (0, 2), ('k', 1), ('a',), (2, 'k', 'a'), ('k', 'k') if h.count('k') > 1 else ('k',)])
             missing = rng.choice([None, None, 'M'])
             yield Case('transform', ('cut', spec, missing, t))
+            yield Case('reshape', ('dicts', missing, t))
             yield Case('transform', ('cutout', spec[:rng.choice([1, 2])], missing, t))
             yield Case('transform', ('movefield', rng.choice(['v', 'a', 'k']), rng.choice([0, 1, 2, 5, -1]), t))
             yield Case('transform', ('cat', missing, rng.choice([None, None, ('v', 'k', 'z')]), (t, t2)))
@@ -181,6 +182,11 @@ class C12(Prop):
 
     def impl(self, case):
         try:
+            if case.op == 'reshape':      # dicts(): asdict pads short rows with `missing` and trims long ones
+                import petl as etl
+                _nm, missing, t = case.arg
+                from ..core import obs_call
+                return obs_call(lambda: [list(d.items()) for d in etl.dicts([list(r) for r in t], missing=missing)])
             if case.op == 'addfields':
                 import petl as etl
                 defs, missing, t = case.arg
@@ -205,6 +211,17 @@ class C12(Prop):
     def spec(self, case, impl_obs, model_obs):
         """one output row per input row, in input order, for the 1:1 transforms; cells outside the requested fields
         carried over unchanged (checked independently of the model for cut/addfield/convert)."""
+        if case.op == 'reshape' and impl_obs[0] == 'li':
+            # every record has exactly the header's fields, in order, with the row's cells (padded / trimmed)
+            _nm, missing, t = case.arg
+            flds = [str(f) for f in t[0]]
+            want = []
+            for r in t[1:]:
+                d = OrderedDict()
+                for i, f in enumerate(flds):
+                    d[f] = r[i] if i < len(r) else missing
+                want.append(('li', tuple(('tu', (codec.canon(k), codec.canon(v))) for k, v in d.items())))
+            return impl_obs == ('li', tuple(want))
         if impl_obs[0] != 'li' or case.op != 'transform':
             return None
         nm = case.arg[0]
